@@ -52,7 +52,7 @@ func ValidQuery(schema *ast.Schema, query string) bool { panic("ghost") }
 //@ returns res, err
 //@ requires g != nil && rs != nil && 0 <= index && index < len(rs.Requests) && rs.Requests[index] != nil
 //@ requires g.planner != nil && g.executor != nil && g.queryerFactory != nil && g.schema != nil
-//@ modifies fresh, entries(map[string]interface{}), elems(interface{}), elems(map[string]interface{}), entries(map[planner.hashKey]*planner.QueryPlan), entries(map[planner.hashKey]time.Time), global(queryer.QueryCalls), global(queryer.LastStatus), all(queryer.MultiOpQueryer.client)
+//@ modifies fresh, entries(map[string]interface{}), elems(interface{}), elems(map[string]interface{}), entries(map[planner.hashKey]*planner.QueryPlan), entries(map[planner.hashKey]time.Time), all(ast.Field.SelectionSet), all(ast.InlineFragment.SelectionSet), global(queryer.QueryCalls), global(queryer.LastStatus), all(queryer.MultiOpQueryer.client)
 //@ ensures[index] err == nil && res != nil && res.index == index
 //@ ensures[invalid] !ValidQuery(g.schema, rs.Requests[index].Query) ==> res.Data == nil && len(res.Errors) >= 1
 //@ ensures[fresh] fresh(res)
